@@ -5,6 +5,8 @@ import BioscrapeModel.Model.Propensity
 import BioscrapeModel.Model.Network
 import BioscrapeModel.Model.Random
 import BioscrapeModel.Model.DelayQueue
+import BioscrapeModel.Model.Rules
+import BioscrapeModel.Model.Loops
 
 /-
 Line protocol codec (DESIGN §1.2).  A `Float` travels as the natural number of
@@ -184,6 +186,47 @@ def decRxnDef (j : Json) : Except String RxnDef := do
 
 def encIntCols (cols : List (List Int)) : Json :=
   Json.arr (cols.map (fun c => Json.arr (c.map (fun (v : Int) => Json.num (JsonNumber.fromInt v))).toArray)).toArray
+
+def getBoolD (j : Json) (k : String) (d : Bool) : Bool :=
+  match j.getObjVal? k with
+  | .ok v => (v.getBool?).toOption.getD d
+  | .error _ => d
+
+def decIntCols (j : Json) (k : String) : Except String (List (List Int)) := do
+  let a ← getArr j k
+  a.toList.mapM (fun c => do
+    let l ← c.getArr?
+    l.toList.mapM (·.getInt?))
+
+def decRule {α} [Codec α] (j : Json) : Except String (Rule α) := do
+  let freq : α ← getNum j "freq"
+  let op ← getStrField j "op"
+  match op with
+  | "additive" => return { freq, op := .additive (← getNatField j "dest") (← getNatList j "srcs") }
+  | "assign" => return { freq, op := .assign (getBoolD j "toParam" false) (← getNatField j "dest")
+                                      (← decTerm (← j.getObjVal? "term")) }
+  | "ode" => return { freq, op := .ode (getBoolD j "toParam" false) (← getNatField j "dest")
+                                   (← decTerm (← j.getObjVal? "term")) }
+  | t => throw s!"bad rule op {t}"
+
+def decDelay {α} (j : Json) : Except String (DelayKind α) := do
+  let a ← j.getArr?
+  let tag ← (a.getD 0 Json.null).getStr?
+  let n (i : Nat) := (a.getD i Json.null).getNat?
+  match tag with
+  | "none" => return .none
+  | "fixed" => return .fixed (← n 1)
+  | "gaussian" => return .gaussian (← n 1) (← n 2)
+  | "gamma" => return .gamma (← n 1) (← n 2)
+  | t => throw s!"bad delay {t}"
+
+def decVolModel {α} [Codec α] (j : Json) : Except String (VolModel α) := do
+  let ty ← getStrField j "type"
+  match ty with
+  | "const" => return .const
+  | "timeThreshold" => return .timeThreshold (← getNum j "growthRate") (← getNum j "divisionTime")
+  | "stateDep" => return .stateDep (← decTerm (← j.getObjVal? "growth")) (← getNum j "divisionVolume")
+  | t => throw s!"bad volume model {t}"
 
 /-- the uniform source of a driver job: the concrete twister for `Float`; `Rat` jobs carry an
 explicit list of uniforms (exact), consumed in order. -/
